@@ -414,6 +414,12 @@ func (vs *ValueSet) FromResult(r Result) error {
 		return err
 	}
 
+	// The function may return a pointer to the result struct; unwrap it
+	// (a nil pointer means zero values) before reading the fields.
+	if vs.structPointers > 0 {
+		r = vs.result(r)
+	}
+
 	return vs.FromSignature(r.out)
 }
 
